@@ -43,13 +43,14 @@ uint8_t nondet_u8(void);
 /* ---- ghost state */
 uint32_t g_h;                     /* hash of the tracked key (uninterpreted)                                  */
 const uint8_t *g_tdata; size_t g_tsize; /* data pointer and length of the tracked key                          */
-size_t g_bits, g_k;               /* filter size in bits, number of probes                                    */
+size_t g_k;                       /* number of probes                                                         */
 size_t g_b; uint8_t g_oldb;       /* tracked byte of the bit array and its value before                       */
 uint32_t g_seen_seed, g_seen_ret; const uint8_t *g_seen_data; size_t g_seen_size;   /* record of the last ldb_hash call */
 unsigned g_hash_calls, g_hash_tracked;  /* calls of ldb_hash, calls on the tracked key                       */
 size_t g_n, g_t;                  /* build: number of keys, tracked key index                                 */
 const ldb_buffer_t *g_dst;        /* build: the destination buffer (NULL outside build)                       */
 size_t g_pre, g_pb; uint8_t g_pbv; /* build: bytes dst held before, a tracked one of them                      */
+size_t g_pad_xn; unsigned g_pad_calls; /* build: the padding requested from the buffer                          */
 
 #define ROT17(h) ((uint32_t)(((h) >> 17) | ((h) << 15)))
 #define BIT_SET(d, pos) (((d)[(pos) / 8] & (1 << ((pos) % 8))) != 0)
@@ -74,6 +75,7 @@ void ldb_free(void *p) { free(p); }
 uint8_t *ldb_buffer_pad(ldb_buffer_t *z, size_t xn) {
   size_t zn = z->size + xn, slack = nondet_size(); uint8_t *nd;
   __CPROVER_assume(slack <= 16);
+  g_pad_xn = xn; g_pad_calls++;
   nd = calloc(zn + slack + 1, 1); __CPROVER_assume(nd != NULL);
   if (g_pb < z->size) nd[g_pb] = z->data[g_pb];
   z->data = nd; z->alloc = zn + slack + 1; z->size = zn;
@@ -103,8 +105,8 @@ __CPROVER_ensures(g_hash_calls == __CPROVER_old(g_hash_calls) || (g_seen_seed ==
  * exactly once */
 void c_bloom_add(const ldb_bloom_t *bloom, uint8_t *data, const ldb_slice_t *key, size_t bits)
 __CPROVER_requires(__CPROVER_r_ok(bloom, sizeof(*bloom)) && __CPROVER_r_ok(key, sizeof(*key)) && bloom->k == g_k)
-__CPROVER_requires(bits == g_bits && bits >= 8 && bits % 8 == 0 && bits <= MAXLEN && __CPROVER_rw_ok(data, bits / 8 + 1) && g_b <= bits / 8)
-__CPROVER_requires(g_dst == NULL || data == g_dst->data + g_pre)
+__CPROVER_requires(bits >= 8 && bits % 8 == 0 && bits <= MAXLEN && __CPROVER_rw_ok(data, bits / 8 + 1) && g_b <= bits / 8)
+__CPROVER_requires(g_dst == NULL || (data == g_dst->data + g_pre && bits == (g_pad_xn - 1) * 8))   /* in bloom_build: the new bit array, all of it */
 __CPROVER_assigns(__CPROVER_object_from(data), g_seen_seed, g_seen_data, g_seen_size, g_seen_ret, g_hash_calls, g_hash_tracked)
 __CPROVER_ensures((data[g_b] & __CPROVER_old(data[g_b])) == __CPROVER_old(data[g_b]))               /* no bit is ever cleared */
 __CPROVER_ensures(g_b < bits / 8 || data[g_b] == __CPROVER_old(data[g_b]))                              /* the byte after the bit array (k) is not touched */
@@ -165,7 +167,7 @@ void h_add(void) {
   pol.k = nondet_size(); pol.bits_per_key = nondet_size();
   key.data = kb; key.size = nondet_size(); key.alloc = 0; ASSUME(key.size <= 4);
   g_tdata = nondet_int() ? kb : NULL; g_tsize = key.size;   /* the key is the tracked one, or some other key */
-  g_h = nondet_u32(); g_k = pol.k; g_bits = bytes * 8; g_dst = NULL;
+  g_h = nondet_u32(); g_k = pol.k; g_dst = NULL;
   g_b = nondet_size(); ASSUME(g_b <= bytes);
   g_oldb = data[g_b]; g_hash_calls = 0; g_hash_tracked = 0;
   bloom_add(&pol, data, &key, bytes * 8);
@@ -185,11 +187,11 @@ void h_build(void) {
   g_tdata = keys[g_t].data; g_tsize = keys[g_t].size;
   bits = n * pol.bits_per_key; if (bits < 64) bits = 64;
   bytes = (bits + 7) / 8;                                   /* the format's size (bloom_size itself: blm.size) */
-  g_bits = bytes * 8; g_b = nondet_size(); ASSUME(g_b <= bytes);
+  g_b = nondet_size(); ASSUME(g_b <= bytes);
   g_pb = nondet_size(); g_pbv = 0; if (g_pb < pre) g_pbv = dst.data[g_pb];
-  g_pre = pre; old_size = dst.size; g_hash_calls = 0; g_hash_tracked = 0;
+  g_pre = pre; old_size = dst.size; g_hash_calls = 0; g_hash_tracked = 0; g_pad_calls = 0; g_pad_xn = 0;
   bloom_build(&pol, &dst, keys, n);
-  CHECK(dst.size == old_size + bytes + 1, "bloom_build: appends ceil(max(64, n * bits_per_key) / 8) bytes of bits and one byte");
+  CHECK(g_pad_calls == 1 && g_pad_xn == bytes + 1 && dst.size == old_size + bytes + 1, "bloom_build: appends ceil(max(64, n * bits_per_key) / 8) bytes of bits and one byte");
   f = dst.data + old_size;
   CHECK(f[bytes] == (uint8_t)pol.k, "bloom_build: the number of probes k is stored in the last byte");
   if (g_pb < pre) CHECK(dst.data[g_pb] == g_pbv, "bloom_build: what dst held before is kept");
